@@ -1,11 +1,6 @@
-(* C04 judges (lockstep traces and decisions under forced load): 0 agree & holds; 1 differ, holds; 2 a body of a cancelled set started without a
-   licensing canceled_ load preceding the cancel store / a cancelled set ran a functor. *)
+(* C04 judges: licences (lockstep trace), cancelled sets run nothing (D).  The judge functions themselves are shared: judge_C04 / judge_C04_impl in Model/TaskSetImplCheck.v (independent of the
+   regenerated decision functions) and, for the decision runs, judge_*_d in Model/TaskSetCheck.v. *)
 From Coq Require Import ZArith List Bool.
-From DV Require Import Base.MachInt Base.Sched Model.TaskSetModel Gen.GenTaskSet Model.TaskSetCheck.
-Import ListNotations.
+From DV Require Export Model.TaskSetImplCheck Model.TaskSetCheck.
 Local Open Scope Z_scope.
-
-Definition judge_C04 (c : lcase) : Z :=
-  if fst (check_C04 c) then 2 else if agrees c then 0 else 1.
-Definition judge_C04_d (d : dcase) : Z :=
-  if negb (d_check_C04 d) then 2 else if d_agrees d then 0 else 1.
+Definition C04_judge_lockstep := judge_C04.
